@@ -1,3 +1,4 @@
+import Rp2.Proofs.PermInvariance
 import Rp2.Proofs.SortPerm
 /-! # C17 — results depend only on the input: deterministic, order- and asset-independent
 The model is a pure function of its input by construction (every definition is a Lean function; no state, no I/O). What
@@ -11,6 +12,16 @@ theorem row_order_irrelevant {α} (ts : α → Int) (l₁ l₂ : List α) (hp : 
 theorem asset_rows_independent_of_other_assets (sd : Bool) (h : Nat → String) (p : Int) (st st' : GenState) (c : Computed)
     (hy : st.yearRow = st'.yearRow) (hs : st.summaryRow = st'.summaryRow) :
     genAsset true sd h p st c = genAsset true sd h p st' c := genAsset_txRow_irrelevant sd h p st st' c hy hs
+/-- **on the executable pipeline**: permuting the rows of the IN, OUT and INTRA tables leaves `computeFractions` — pairing, amounts and
+    every figure — unchanged, provided acquisitions have distinct timestamps and taxable events have distinct timestamps -/
+theorem model_row_order_irrelevant (sched : List (Int × Method)) (ins ins' : List InTx) (outs outs' : List OutTx) (intras intras' : List IntraTx)
+    (hi : ins.Perm ins') (ho : outs.Perm outs') (hx : intras.Perm intras')
+    (hlots : ∀ a ∈ ins, ∀ b ∈ ins, a.ts.us = b.ts.us → a = b)
+    (hevs : ∀ a ∈ (ins.filter (·.typ.isEarn)).map InTx.toEv ++ outs.map OutTx.toEv ++ (intras.filter (fun t => gt13 t.fiatFee 0)).map IntraTx.toEv,
+            ∀ b ∈ (ins.filter (·.typ.isEarn)).map InTx.toEv ++ outs.map OutTx.toEv ++ (intras.filter (fun t => gt13 t.fiatFee 0)).map IntraTx.toEv,
+            a.ts.us = b.ts.us → a = b) :
+    computeFractions sched ins outs intras = computeFractions sched ins' outs' intras' :=
+  computeFractions_perm sched ins ins' outs outs' intras intras' hi ho hx hlots hevs
 /-- non-vacuity: a permuted table with distinct timestamps meets the hypotheses -/
 example : ([(3, 0), (1, 1), (2, 2)] : List (Int × Nat)).Perm [(2, 2), (3, 0), (1, 1)] ∧
     ∀ a ∈ ([(3, 0), (1, 1), (2, 2)] : List (Int × Nat)), ∀ b ∈ ([(3, 0), (1, 1), (2, 2)] : List (Int × Nat)), a.1 = b.1 → a = b := by
